@@ -213,6 +213,10 @@ def _flow(c):
         else:
             t = T.CompositeTransform([T.PiecewiseRationalQuadraticCouplingTransform([1, 0, 1][:f], C.resnet(ctxdim), num_bins=3, tails="linear", tail_bound=2.5, apply_unconditional_transform=True),
                                       T.PiecewiseQuadraticCouplingTransform([0, 1, 0][:f], C.resnet(ctxdim), num_bins=3, tails="linear", tail_bound=2.5, apply_unconditional_transform=True)])
+    elif tr == "lu_cached_sigmoid":
+        # a cached linear layer followed by sigmoid_T1 and logit_T2 (together x -> (T1/T2) x, through (0,1)): non-default temperatures,
+        # the cache of the linear family used in both directions (flows are evaluated in eval mode)
+        t = T.CompositeTransform([T.LULinear(f, identity_init=False, using_cache=True), T.Sigmoid(temperature=1.5), T.Logit(temperature=0.7)])
     elif tr == "lu_leaky":
         t = T.CompositeTransform([T.LULinear(f, identity_init=False), T.LeakyReLU(0.3), T.PointwiseAffineTransform(shift=0.3, scale=1.7)])
     elif tr == "inverse_ar":
@@ -237,7 +241,7 @@ def _flow_valid(c):
     return True
 
 
-reg(DSubject("Flow", {"transform": ["ar_affine", "coupling_rq", "lu_leaky", "inverse_ar", "coupling_uncond"], "features": [2, 1, 3], "base": ["standard", "conditional", "diag", "mog"], "context": ["raw", None, "embedded", "embedded_mlp"]},
+reg(DSubject("Flow", {"transform": ["ar_affine", "coupling_rq", "lu_leaky", "inverse_ar", "coupling_uncond", "lu_cached_sigmoid"], "features": [2, 1, 3], "base": ["standard", "conditional", "diag", "mog"], "context": ["raw", None, "embedded", "embedded_mlp"]},
              _flow, lambda c: (c["features"],), ctx_shape=lambda c: None if c["context"] is None else ((2,) if c["context"] == "raw" else (3,)), is_flow=True, valid=_flow_valid))
 
 
